@@ -14,7 +14,7 @@ Corpus(name) == ndJsonDeserialize(CorpusDir \o "/" \o name \o ".ndjson")
 RV18 == Corpus("RV18")
 DV18 == Corpus("DV18")
 P2V18 == Corpus("P2V18")
-BadClasses == <<"empty", "truncated", "garbage", "notjson", "twodocs", "junkthendoc", "longgarbage", "ffpad", "nbsppad", "nelpad", "lspad", "bompad">>
+BadClasses == <<"empty", "truncated", "garbage", "notjson", "twodocs", "junkthendoc", "longgarbage", "ffpad", "nbsppad", "nelpad", "lspad", "bompad", "aposquoted">>
 
 VARIABLE sc       \* the scenario descriptor (constant during a behaviour)
 vars == <<sc, ruleText, dataArg, stdin, dataText, pc, pending, outcome, stdout, status>>
